@@ -107,6 +107,7 @@ type Trace struct {
 	Samples    []string
 	nontrivial map[string]bool
 	Notes      map[string]int
+	failRecs   map[string]int
 }
 
 func NewTrace(path string) (*Trace, error) {
@@ -184,9 +185,33 @@ func (t *Trace) Nontrivial(key string) { t.nontrivial[key] = true }
 // violated by the implementation itself.  The history so far is the replay.
 func (t *Trace) Fail(property, monitor, msg string) {
 	t.Violations++
+	// a change that breaks a monitor on every input must not fill the disk:
+	// at most 25 records per monitor, each with at most the last 60
+	// operations of its history and a message of at most 4000 bytes; further
+	// failures are only counted (summary: monitor_failures)
+	if t.failRecs == nil {
+		t.failRecs = map[string]int{}
+	}
+	key := property + "." + monitor
+	t.failRecs[key]++
+	if t.failRecs[key] > 25 {
+		return
+	}
+	ops := t.curLines
+	truncated := 0
+	if len(ops) > 60 {
+		truncated = len(ops) - 60
+		ops = ops[len(ops)-60:]
+	}
+	if len(msg) > 4000 {
+		msg = msg[:4000] + "...(truncated)"
+	}
 	rec := map[string]interface{}{
 		"property": property, "monitor": monitor, "message": msg,
-		"history": t.curHist, "ops": append([]string{}, t.curLines...),
+		"history": t.curHist, "ops": append([]string{}, ops...),
+	}
+	if truncated > 0 {
+		rec["ops_omitted_before"] = truncated
 	}
 	b, _ := json.Marshal(rec)
 	fmt.Fprintln(t.mon, string(b))
